@@ -299,6 +299,7 @@ def operations(f):
     res = []
     for ev, term_ in flow.paths(f.body, unroll=1):
         ops = []
+        temps = {}        # name of a never-reassigned temporary -> (index of its declaration, what its initialiser read)
         for e in ev:
             if e[0] not in ("stmt", "cond", "return"):
                 continue
@@ -316,7 +317,22 @@ def operations(f):
                     rw.visit(node, "r")
                     text = _label(lab, node)
                 cache[key] = (text, frozenset(rw.R), frozenset(rw.W))
-            ops.append(cache[key])
+            text, R, W = cache[key]
+            # a statement that uses a temporary depends on what the temporary was computed from, as long as none of
+            # that was written in between (then `auto t = e; use(t)` and `use(e)` order alike)
+            R2 = set(R)
+            for name in R:
+                if name in temps:
+                    j, Ri = temps[name]
+                    if not any(overlap(w, r) for k in range(j + 1, len(ops)) for w in ops[k][2] for r in Ri):
+                        R2 |= Ri
+            if e[0] == "stmt":
+                sn = strip(node, casts=True)
+                if sn is not None and sn.get("k") == "DeclStmt":
+                    for d in sn.get("decls", ()):
+                        if d.get("k") == "Var" and d["id"] in lab.defs and d["id"] not in cn.defs:
+                            temps[cn.lname(d["id"], d["n"])] = (len(ops), frozenset(R2))
+            ops.append((text, frozenset(R2), W))
         res.append(ops)
     return res
 
@@ -403,23 +419,30 @@ def check(chk, fx, rule, name):
         labels.add(a)
         labels.add(b)
     matched = 0
+    stable = 0
+
+    def volatile(t):
+        # the declaration of a temporary that the canonical forms replace by its initialiser: such operations come and
+        # go with every refactoring, they never count towards "can the frozen order still be recognised"
+        return t.startswith("decl ") and not t.startswith("decl ?v")
     for a, b, kind in g["pairs"]:
+        vol = volatile(a) or volatile(b)
+        if not vol:
+            stable += 1
         if a not in labels or b not in labels:
             continue
-        matched += 1
         site = A.site(f)
         if (a, b) in fwd:
+            matched += 0 if vol else 1
             chk.ok(rule, site, "'%s' stays before '%s' (%s)" % (a[:60], b[:60], kind))
         elif (b, a) in fwd:
+            matched += 0 if vol else 1
             chk.violation(rule, site, "%s:%s:%s" % (rule, f.o["n"], _short(a, b)),
                           "in %s the operation '%s' must come before '%s' (%s dependence on %s); in the code the order "
                           "is reversed" % (f.o["n"], a[:120], b[:120], kind, _shared(f, a, b)))
-        else:
-            # both operations exist but no longer conflict in either order (e.g. now on exclusive paths): no verdict
-            matched -= 1
-    if g["pairs"] and matched * 2 < len(g["pairs"]):
-        chk.incomplete("%s: only %d of the %d frozen dependences of %s can be matched to the code (unknown shape)" % (
-            rule, matched, len(g["pairs"]), f.o["n"]))
+    if stable and matched * 2 < stable:
+        chk.defer_incomplete("%s: only %d of the %d frozen dependences of %s can be matched to the code (unknown shape)" % (
+            rule, matched, stable, f.o["n"]))
     return f
 
 
